@@ -22,6 +22,19 @@ pub struct Case {
     pub qs: Vec<[f64; 6]>,
     /// one simulated execution per entry; cross-schedule clauses compare them
     pub cfgs: Vec<SimCfg>,
+    /// > 1: the postures are queried by that many concurrent simulated caller tasks sharing the robot
+    #[serde(default)]
+    pub clients: usize,
+    /// history: afterwards the SAME robot object gets this safety table through its public field
+    /// (and optionally loses its last environment body) and is queried again
+    #[serde(default)]
+    pub reconfigure: Option<Reconf>,
+}
+
+#[derive(Clone, Debug, Serialize, Deserialize)]
+pub struct Reconf {
+    pub safety: SafetySpec,
+    pub drop_last_env: bool,
 }
 
 #[derive(Clone, Debug, PartialEq)]
@@ -45,17 +58,38 @@ pub struct Fail {
 fn execute(robot: &Arc<KinematicsWithShape>, case: &Case, cfg: &SimCfg) -> SimOut<Vec<QObs>> {
     let robot = robot.clone();
     let qs = case.qs.clone();
-    let near = case.near.as_ref().map(|n| n.build());
+    let near = case.near.as_ref().map(|n| Arc::new(n.build()));
+    let clients = case.clients.max(1);
     sim::simulate(cfg, move || {
-        let mut out = Vec::with_capacity(qs.len());
-        for q in &qs {
+        let one = |robot: &KinematicsWithShape, q: &[f64; 6], near: &Option<Arc<rs_opw_kinematics::collisions::SafetyDistances>>| -> QObs {
             let collides = robot.collides(q);
             let body_collides = robot.body.collides(q, robot.kinematics.as_ref());
             let details = robot.collision_details(q);
             let near = near.as_ref().map(|t| robot.near(q, t));
-            out.push(QObs { collides, body_collides, details, near });
+            QObs { collides, body_collides, details, near }
+        };
+        if clients <= 1 {
+            return qs.iter().map(|q| one(&robot, q, &near)).collect();
         }
-        out
+        // concurrent callers sharing one robot: caller c takes postures c, c + clients, ...
+        let slots: Arc<std::sync::Mutex<Vec<Option<QObs>>>> = Arc::new(std::sync::Mutex::new(vec![None; qs.len()]));
+        let mut hs = Vec::new();
+        for c in 0..clients {
+            let (robot, qs, near, slots) = (robot.clone(), qs.clone(), near.clone(), slots.clone());
+            hs.push(shuttle::thread::spawn(move || {
+                let mut i = c;
+                while i < qs.len() {
+                    let o = one(&robot, &qs[i], &near);
+                    slots.lock().unwrap()[i] = Some(o);
+                    i += clients;
+                }
+            }));
+        }
+        for h in hs {
+            h.join().unwrap();
+        }
+        let v = slots.lock().unwrap().clone();
+        v.into_iter().map(|o| o.expect("caller task did not deliver")).collect()
     })
 }
 
@@ -184,15 +218,47 @@ fn judge_list(
 
 /// Run all configurations of a case and evaluate every clause.
 pub fn judge(case: &Case) -> Vec<Fail> {
-    let robot = Arc::new(case.cell.build_robot());
-    judge_with(case, &robot, &mut |_, _| {})
-}
-
-fn judge_with(case: &Case, robot: &Arc<KinematicsWithShape>, observe: &mut dyn FnMut(usize, &SimOut<Vec<QObs>>)) -> Vec<Fail> {
-    judge_full(case, robot, observe, &mut |_| {})
+    let mut robot = Arc::new(case.cell.build_robot());
+    judge_full(case, &mut robot, &mut |_, _| {}, &mut |_| {})
 }
 
 fn judge_full(
+    case: &Case,
+    robot: &mut Arc<KinematicsWithShape>,
+    observe: &mut dyn FnMut(usize, &SimOut<Vec<QObs>>),
+    stats: &mut dyn FnMut(&[Brute]),
+) -> Vec<Fail> {
+    let mut fails = judge_phase(case, robot, observe, stats);
+    if let Some(rc) = &case.reconfigure {
+        let mut cell2 = case.cell.clone();
+        cell2.safety = rc.safety.clone();
+        let dropped = rc.drop_last_env && !cell2.env.is_empty();
+        if dropped {
+            cell2.env.pop();
+        }
+        let n = cell2.env.len();
+        cell2.safety.special.retain(|s| (s.0 as usize) < ENV0 + n && (s.1 as usize) < ENV0 + n);
+        let mut near2 = case.near.clone();
+        if let Some(t) = near2.as_mut() {
+            t.special.retain(|s| (s.0 as usize) < ENV0 + n && (s.1 as usize) < ENV0 + n);
+        }
+        if let Some(r) = Arc::get_mut(robot) {
+            r.body.safety = cell2.safety.build();
+            if dropped {
+                r.body.collision_environment.pop();
+            }
+            let case2 = Case { cell: cell2, near: near2, qs: case.qs.clone(), cfgs: vec![case.cfgs[0].clone()], clients: case.clients, reconfigure: None };
+            for mut f in judge_phase(&case2, robot, &mut |_, out| observe(usize::MAX, out), &mut |_| {}) {
+                f.clause = format!("{}/after-reconfiguration", f.clause);
+                f.signature = format!("{}/after-reconfiguration", f.signature);
+                fails.push(f);
+            }
+        }
+    }
+    fails
+}
+
+fn judge_phase(
     case: &Case,
     robot: &Arc<KinematicsWithShape>,
     observe: &mut dyn FnMut(usize, &SimOut<Vec<QObs>>),
@@ -320,6 +386,16 @@ fn drop_env(case: &Case, k: usize) -> Case {
 
 fn candidates(case: &Case) -> Vec<Case> {
     let mut out = Vec::new();
+    if case.reconfigure.is_some() {
+        let mut c = case.clone();
+        c.reconfigure = None;
+        out.push(c);
+    }
+    if case.clients > 1 {
+        let mut c = case.clone();
+        c.clients = 1;
+        out.push(c);
+    }
     if case.qs.len() > 1 {
         for i in 0..case.qs.len() {
             let mut c = case.clone();
@@ -495,7 +571,15 @@ pub fn gen_case(seed: u64, shard: u64, run: u64, t: &Tier) -> (Case, Vec<Relatio
         let sched_seed = simctx::mix(&[seed, shard, run, s as u64, simctx::name_hash("c10.sched")]);
         cfgs.push(SimCfg::swarm(&mut knobs, sched_seed, 0, 200_000));
     }
-    (Case { cell, near, qs, cfgs }, rels)
+    let clients = if knobs.chance(0.25) { knobs.range_usize(2, 3) } else { 1 };
+    let reconfigure = if knobs.chance(0.3) {
+        let mut t2 = gen::gen_safety(&mut w, cell.tool.is_some(), cell.base.is_some(), n_env, false, knobs.chance(0.5));
+        t2.special.retain(|s| (s.0 as usize) < ENV0 + n_env && (s.1 as usize) < ENV0 + n_env);
+        Some(Reconf { safety: t2, drop_last_env: knobs.chance(0.4) })
+    } else {
+        None
+    };
+    (Case { cell, near, qs, cfgs, clients, reconfigure }, rels)
 }
 
 pub fn run(tier_name: &str, seed: u64) -> i32 {
@@ -508,12 +592,19 @@ pub fn run(tier_name: &str, seed: u64) -> i32 {
             for r in &rels {
                 tally.bump(&format!("env_relation_{r:?}").to_lowercase(), 1);
             }
-            let robot = Arc::new(case.cell.build_robot());
+            let mut robot = Arc::new(case.cell.build_robot());
             let scen_hash = simctx::name_hash(&serde_json::to_string(&(&case.cell, &case.near, &case.qs)).unwrap());
             let mut sample: Option<Value> = None;
             let mut pair_stats: Vec<(String, u64)> = Vec::new();
-            let fails = judge_full(&case, &robot, &mut |ci, out| {
+            if case.clients > 1 {
+                tally.bump("scenarios_with_concurrent_callers", 1);
+            }
+            let fails = judge_full(&case, &mut robot, &mut |ci, out| {
                 tally.evaluations += 1;
+                if ci == usize::MAX {
+                    tally.bump("history_requery_after_reconfiguration", 1);
+                    return;
+                }
                 let c = &out.counters;
                 tally.bump("sched_steps", c.steps);
                 tally.bump("sched_branching_points", c.branching);
